@@ -48,7 +48,7 @@ def gen_line(rng, big):
     """One operation line, biased towards admissible arguments."""
     op = rng.choice(["new", "get", "lower", "eq", "same_dims", "loo", "resize_dim", "resize_batch", "reshape", "flatten",
                      "scalar_op", "elementwise", "slice", "concat", "broadcast", "pick", "transpose", "permute",
-                     "matmul", "conv2d", "pool2d", "batch_pick", "batch_slice", "batch_concat", "split", "batch_split"])
+                     "matmul", "conv2d", "pool2d", "batch_pick", "batch_slice", "batch_concat", "split", "batch_split", "sce"])
     d = rand_dims(rng, big)
     b = rand_batch(rng, big)
     s = tok(d, b)
@@ -113,6 +113,14 @@ def gen_line(rng, big):
         if rng.random() < 0.25 and d2:
             i = rng.randrange(len(d2)); d2[i] = rng.choice([1, 2, 3])
         return "elementwise %s %s" % (s, tok(d2, rng.choice([1, b, b, 3])))
+    if op == "sce":
+        d2 = list(d)
+        r = rng.random()
+        if r < 0.3 and ax < 8:
+            d2 = d2 + [1] * max(0, ax + 1 - len(d2)); d2[ax] = rng.choice([1, 2, 3, 5])      # differ on exactly the reduced axis
+        elif r < 0.4 and d2:
+            d2[rng.randrange(len(d2))] = rng.choice([1, 2, 3])
+        return "sce %s %s %d" % (s, tok(d2, rng.choice([1, b, b, 3])), ax)
     if op == "slice":
         n = dim(ax) if ax < 2**31 else 1
         lo = num(0, [0, 0, 1, n - 1, n // 2])
@@ -302,6 +310,10 @@ def batch_rule_lines():
             out.append("matmul %s %s" % (tok([2, 3], b1), tok([3, 2], b2)))
             out.append("conv2d %s %s 0 0 1 1 1 1" % (tok([3, 3, 2], b1), tok([2, 2, 2, 3], b2)))
             out.append("reshape %s %s" % (tok([2, 3], b1), tok([3, 2], b2)))
+            for dim in (0, 1, 2, 8):
+                out.append("sce %s %s %d" % (tok([2, 3], b1), tok([2, 3], b2), dim))
+                out.append("sce %s %s %d" % (tok([2, 3], b1), tok([2, 2], b2), dim))
+                out.append("sce %s %s %d" % (tok([3, 3], b1), tok([1, 3], b2), dim))
             for ids in ((0,), (0, 1), (0, 1, 1)):
                 out.append("pick %s 0 %s" % (tok([2, 3], b1), " ".join(map(str, ids))))
     for k in (2, 3, 4):
